@@ -12,7 +12,7 @@ K_NOTE = ('Trusted base: Kani 0.68 codegen + CBMC 6.11/CaDiCaL; the stubs and co
 BMC = 'Kani-compiled harnesses over the real crate, decided by CBMC (SAT, CaDiCaL) for all values of the symbolic input bytes; auto-deepened unwinding bounds with unwinding assertions; native replay of counterexamples'
 CLAIMED = {
     'C01': ('DESIGN.md 2/C01', 'bounded model checking: for each shape of the catalogue (every scalar kind, homogeneous and mixed sets, groups, collections incl. two-valued members and nesting) and ALL header/value contents: build -> encode -> parse returns the same header, groups, names and values', BMC),
-    'C02': ('DESIGN.md 2/C02', 'bounded model checking: value decoder total for every tag x every length 0..=12 x all body bytes (with-language: all inner length pairs); malformed but token-wise valid messages (unclosed collection, orphan values/markers), reader primitives at boundary declared lengths, Display of any resolution: Ok or Err, never a panic', BMC),
+    'C02': ('DESIGN.md 2/C02', 'bounded model checking: value decoder total for every tag x every length 0..=12 x all body bytes (with-language: all inner length pairs); malformed but token-wise valid messages (unclosed collection, orphan values/markers), every 2-byte string after any header through the blocking parser, reader primitives at boundary declared lengths, Display of any resolution: Ok or Err, never a panic', BMC),
     'C03': ('DESIGN.md 2/C03', 'bounded model checking: encoder output == an independently generated RFC 8010 reference encoding, byte for byte, for every shape (incl. collections, mixed sets) and all contents, under every enumerated attribute-map order', BMC + '; reference encoder generated from the RFC text (gen/shapes.py)'),
     'C04': ('DESIGN.md 2/C04', 'bounded model checking: for each wire shape (incl. forms the encoder never emits) and ALL contents the parser result equals an independent reference interpretation (incl. empty/nested collections, multi-valued members, sets of collections); for ALL 256 bytes at the first tag position the blocking drive loop ends / opens a group / reads a value / rejects with InvalidTag(byte) exactly as the RFC 8010 tag ranges say (never skips)', BMC),
     'C05': ('DESIGN.md 2/C05', 'MIR normal-form identity of every duplicated blocking/async function pair (9 reader primitives, value step, drive loop, entry points, closures): same reads with the same buffer sizes, same calls, same error propagation, same decisions, with the compiler-generated await machinery removed; the tag dispatch of both drive loops is additionally proved equal, and equal to the RFC 8010 partition, by z3 over all 256 tag bytes; differences are confirmed by running both real parsers natively before being reported', 'MIR normalisation (symbolic walk of both bodies) + z3 on the tag dispatch; native differential confirmation of candidates'),
